@@ -6,6 +6,7 @@
   here and the harness skips the model comparison for type trees that contain them (DESIGN §7 C02).
 -/
 import FFS.Model.AbiTypes
+import FFS.Gen.AbiCodecFacts
 namespace FFS.Model.Abi
 open FFS
 
@@ -219,6 +220,22 @@ def decodeRepeat (dec : Nat → Nat → Outcome (Nat × CV)) : Nat → Nat → N
     | .err => .err
     | .panic => .panic
 
+/-- the loop of decodeABIDynamicArrayBytes: as `decodeRepeat`, and a child that consumed no head bytes is refused
+    when the count exceeds the fixed cap (`over`) -/
+def decodeRepeatDyn (dec : Nat → Nat → Outcome (Nat × CV)) (over : Bool) : Nat → Nat → Nat → Outcome (Nat × List CV)
+  | 0, _, _ => .ok (0, [])
+  | n + 1, headStart, headPos =>
+    match dec headStart headPos with
+    | .ok (r, c) =>
+      if Gen.AbiCodecFacts.zeroSizeCountBounded && over && r == 0 then .err
+      else
+        match decodeRepeatDyn dec over n headStart (headPos + r) with
+        | .ok (rs, cs) => .ok (r + rs, c :: cs)
+        | .err => .err
+        | .panic => .panic
+    | .err => .err
+    | .panic => .panic
+
 mutual
   /-- `decodeABIElement(block, headStart, headPosition, component)` : (headBytesRead, value) -/
   def decode : Ty → Bytes → Nat → Nat → Outcome (Nat × CV)
@@ -247,7 +264,7 @@ mutual
       | .ok off =>
         match decodeLength block (hs + off) with
         | .ok count =>
-          match decodeRepeat (decode t block) count (hs + off + 32) (hs + off + 32) with
+          match decodeRepeatDyn (decode t block) (decide (count > Gen.AbiCodecFacts.maxEmptyElementCount)) count (hs + off + 32) (hs + off + 32) with
           | .ok (_, cs) => .ok (32, .kids cs)
           | .err => .err
           | .panic => .panic
